@@ -416,16 +416,17 @@ func envSubstWithOptions() yqAction {
 		noEmpty := hasOptionParameter(value, "ne")
 		noUnset := hasOptionParameter(value, "nu")
 		failFast := hasOptionParameter(value, "ff")
-		envsubstOpType.Type = "ENVSUBST"
+		// the options are described in the operation's own value; the operation type is shared by every expression
+		description := "ENVSUBST"
 		prefs := envOpPreferences{NoUnset: noUnset, NoEmpty: noEmpty, FailFast: failFast}
 		if noEmpty {
-			envsubstOpType.Type = envsubstOpType.Type + "_NO_EMPTY"
+			description = description + "_NO_EMPTY"
 		}
 		if noUnset {
-			envsubstOpType.Type = envsubstOpType.Type + "_NO_UNSET"
+			description = description + "_NO_UNSET"
 		}
 
-		op := &Operation{OperationType: envsubstOpType, Value: envsubstOpType.Type, StringValue: value, Preferences: prefs}
+		op := &Operation{OperationType: envsubstOpType, Value: description, StringValue: value, Preferences: prefs}
 		return &token{TokenType: operationToken, Operation: op}, nil
 	}
 }
